@@ -140,7 +140,7 @@ func TestVerifC21Cluster(t *testing.T) {
 				}
 				cs.Writes = append(cs.Writes, index+": "+pq)
 				if _, err := c[rng.Intn(nn)].API.Query(ctx, &pilosa.QueryRequest{Index: index, Query: pq}); err != nil {
-					r.Fail("cluster:write-error", id, pq+": "+err.Error(), cs)
+					r.FailOrUndecided("cluster:write-error", id, pq+": "+err.Error(), cs)
 					return
 				}
 			}
@@ -181,14 +181,14 @@ func TestVerifC21Cluster(t *testing.T) {
 					resp, err := m.API.Query(ctx, &pilosa.QueryRequest{Index: parts[0], Query: parts[1]})
 					r.Eval(1)
 					if err != nil {
-						r.Fail("cluster:query-error:"+stage, id, fmt.Sprintf("%s via node %d: %v", parts[1], k, err), cs)
+						r.FailOrUndecided("cluster:query-error:"+stage, id, fmt.Sprintf("%s via node %d: %v", parts[1], k, err), cs)
 						return false
 					}
 					got := canon(resp.Results[0])
 					if record && k == 0 {
 						queries[q] = got
 					} else if got != queries[q] {
-						r.Fail("cluster:query-changed:"+stage, id, fmt.Sprintf("%s on %s via node %s: %s, before the resize: %s", parts[1], parts[0], m.API.Node().ID, got, queries[q]), cs)
+						r.FailOrUndecided("cluster:query-changed:"+stage, id, fmt.Sprintf("%s on %s via node %s: %s, before the resize: %s", parts[1], parts[0], m.API.Node().ID, got, queries[q]), cs)
 						return false
 					}
 				}
@@ -226,7 +226,7 @@ func TestVerifC21Cluster(t *testing.T) {
 							}
 							key := c21cKey{index, fld, vn, sh}
 							if prev, seen := model[key]; seen && !vk.EqualU64(prev, ps) {
-								r.Fail("cluster:replicas-differ-before-resize", id, fmt.Sprintf("%v: %s vs %s", key, vk.Brief(prev), vk.Brief(ps)), cs)
+								r.FailOrUndecided("cluster:replicas-differ-before-resize", id, fmt.Sprintf("%v: %s vs %s", key, vk.Brief(prev), vk.Brief(ps)), cs)
 								return
 							}
 							model[key] = ps
@@ -258,7 +258,7 @@ func TestVerifC21Cluster(t *testing.T) {
 				for oid := range owners {
 					m := nodes[oid]
 					if m == nil {
-						r.Fail("cluster:owner-not-a-member:"+stage, id, fmt.Sprintf("%v is owned by %s which is not a running member", key, oid), cs)
+						r.FailOrUndecided("cluster:owner-not-a-member:"+stage, id, fmt.Sprintf("%v is owned by %s which is not a running member", key, oid), cs)
 						return false
 					}
 					r.Eval(1)
@@ -276,7 +276,7 @@ func TestVerifC21Cluster(t *testing.T) {
 						if newly {
 							kind = "newly-owned"
 						}
-						r.Fail(fmt.Sprintf("cluster:owner-lacks-data:%s:%s:%s-view", stage, kind, vc), id,
+						r.FailOrUndecided(fmt.Sprintf("cluster:owner-lacks-data:%s:%s:%s-view", stage, kind, vc), id,
 							fmt.Sprintf("after %s node %s owns %s/%s/%s/%d (newly=%v) but holds %s; recorded contents %s", stage, oid, key.index, key.field, key.view, key.shard, newly, vk.Brief(got), vk.Brief(want)), cs)
 						return false
 					}
@@ -366,10 +366,10 @@ func TestVerifC21Cluster(t *testing.T) {
 			r.Eval(1)
 			switch {
 			case err != nil && !mustRefuse:
-				r.Fail("cluster:remove-refused-although-sources-exist", id, fmt.Sprintf("RemoveNode(%s): %v; every shard with data has another previous owner", victim, err), cs)
+				r.FailOrUndecided("cluster:remove-refused-although-sources-exist", id, fmt.Sprintf("RemoveNode(%s): %v; every shard with data has another previous owner", victim, err), cs)
 				return
 			case err == nil && mustRefuse:
-				r.Fail("cluster:remove-accepted-without-source", id, fmt.Sprintf("RemoveNode(%s) accepted although it is the only owner of a shard with data", victim), cs)
+				r.FailOrUndecided("cluster:remove-accepted-without-source", id, fmt.Sprintf("RemoveNode(%s) accepted although it is the only owner of a shard with data", victim), cs)
 				return
 			case err != nil:
 				r.Cover("cluster:remove-refused")
